@@ -63,10 +63,12 @@ pub(crate) fn run<'cx>(
     let formatter = PyFormatter::new(tcx, docs);
     let errors = ErrorStore::default();
 
-    let lib_name = conf
-        .shared_config
-        .lib_name
-        .expect("Nanobind backend requires lib_name to be set in the config");
+    let Some(lib_name) = conf.shared_config.lib_name else {
+        errors.push_error(
+            "Nanobind backend requires lib_name to be set in the config".to_string(),
+        );
+        return (files, errors);
+    };
 
     // Output the C++ bindings we rely on
 
